@@ -208,6 +208,21 @@ func Serializer.Do
   modifies everything
   ensures r0 == s
 
+-- WriteUint256: the 32 bytes written are the number's bytes in LITTLE-endian order (math/big hands them out big-endian:
+-- they are reversed, whatever their number), zero-padded at the end
+func Serializer.WriteUint256
+  requires s != nil
+  callback errProducer(e) (r)
+    ensures e != nil ==> r != nil          -- error producers wrap the error they are given
+  modifies s.buf, s.buf.data, s.buf.n, s.err, allelems(uint8)
+  loop 1 invariant 0 <= i && j == len(numBytes) - 1 - i && i <= j + 1 && len(numBytes) == biglen(num) && fresh(numBytes)
+  loop 1 invariant forall k Int :: 0 <= k && k < i ==> numBytes[k] == sel(bigbytes(num), len(numBytes) - 1 - k) && numBytes[len(numBytes) - 1 - k] == sel(bigbytes(num), k)
+  loop 1 invariant forall k Int :: i <= k && k <= j ==> numBytes[k] == sel(bigbytes(num), k)
+  ensures r0 == s
+  ensures old(s.err) != nil ==> s.err == old(s.err) && s.buf.n == old(s.buf.n)
+  ensures forall p Int :: p < old(s.buf.n) ==> sel(s.buf.data, p) == sel(old(s.buf.data), p)
+  ensures old(s.err) == nil && s.err == nil ==> num != nil && biglen(num) <= 32 && s.buf.n == old(s.buf.n) + 32
+  ensures old(s.err) == nil && s.err == nil ==> forall p Int :: 0 <= p && p < 32 ==> sel(s.buf.data, old(s.buf.n) + p) == (p < biglen(num) ? sel(bigbytes(num), biglen(num) - 1 - p) : 0)
 @*/
 
 /*@
